@@ -920,12 +920,12 @@ theorem weekPeriodP_spec (R : DateTime) (hv : R.date.valid = true) (k : Int) (ea
 
 /-! ### weekend -/
 
-theorem weekendPeriod_spec (R : DateTime) (hv : R.date.valid = true) (k : Int) (t : Str) (b e : DateTime)
-    (h : weekendPeriod R k = some (t, b, e)) :
+theorem weekendPeriodPreFix_spec (R : DateTime) (hv : R.date.valid = true) (k : Int) (t : Str) (b e : DateTime)
+    (h : weekendPeriodPreFix R k = some (t, b, e)) :
     b.date.valid = true ∧ e.date.valid = true ∧ b.secs = R.secs ∧ e.secs = R.secs ∧
     (b.date.ord : Int) = mondayOrd R.date.ord + 5 + 7 * k ∧ e.date.ord = b.date.ord + 2 ∧
     t = pad 4 R.date.y ++ [45, 87] ++ pad 2 (isoCalendar b.date).2.1 ++ [45, 87, 69] := by
-  unfold weekendPeriod at h
+  unfold weekendPeriodPreFix at h
   cases h6 : weekDay R k 6 with
   | none => simp [h6] at h
   | some b0 =>
@@ -1079,19 +1079,29 @@ theorem yearToDate_spec (R : DateTime) (hv : R.date.valid = true) :
   unfold safeCreateFromMinValue at this
   rw [this]
 
-theorem monthToDate_spec (R : DateTime) (hv : R.date.valid = true) :
-    monthToDate R = (pad 4 R.date.y ++ [45] ++ pad 2 R.date.m, ⟨⟨R.date.y, R.date.m, 1⟩, 0⟩,
+theorem monthToDatePreFix_spec (R : DateTime) (hv : R.date.valid = true) :
+    monthToDatePreFix R = (pad 4 R.date.y ++ [45] ++ pad 2 R.date.m, ⟨⟨R.date.y, R.date.m, 1⟩, 0⟩,
       ⟨⟨R.date.y, R.date.m, R.date.m⟩, 3600⟩, R) := by
   have hvy := (valid_iff R.date).1 hv
   have v1 := valid_first R.date.y R.date.m hvy.1 hvy.2.1 hvy.2.2.1 hvy.2.2.2.1
   have vm := valid_md R.date.y R.date.m R.date.m hvy.1 hvy.2.1 hvy.2.2.1 hvy.2.2.2.1 hvy.2.2.1 (by omega)
-  unfold monthToDate
+  unfold monthToDatePreFix
   have a := safeCreate_ymd R.date.y R.date.m 1 v1
   unfold safeCreateFromMinValue at a
   rw [a]
   unfold safeCreateFromValueH
   rw [isValidDate_of_valid ⟨R.date.y, R.date.m, R.date.m⟩ vm]
   simp
+
+theorem monthToDate_spec (R : DateTime) (hv : R.date.valid = true) :
+    monthToDate R = (pad 4 R.date.y ++ [45] ++ pad 2 R.date.m, ⟨⟨R.date.y, R.date.m, 1⟩, 0⟩,
+      ⟨⟨R.date.y, R.date.m, 1⟩, 0⟩, R) := by
+  have hvy := (valid_iff R.date).1 hv
+  have v1 := valid_first R.date.y R.date.m hvy.1 hvy.2.1 hvy.2.2.1 hvy.2.2.2.1
+  unfold monthToDate
+  have a := safeCreate_ymd R.date.y R.date.m 1 v1
+  unfold safeCreateFromMinValue at a
+  rw [a]
 
 /-! ### rest of the week / month / year -/
 
@@ -1189,17 +1199,17 @@ theorem replaceYear_ymd (y m d : Nat) (s : Nat) (y2 : Nat) (hv : (⟨y2, m, d⟩
   rw [isValidDate_of_valid ⟨y2, m, d⟩ hv]
   simp
 
-theorem numberWithMonth_both (fixed : Bool) (R : DateTime) (hv : R.date.valid = true) (m d : Nat) (he : everyYear m d)
+theorem numberWithMonthPreFix_both (fixed : Bool) (R : DateTime) (hv : R.date.valid = true) (m d : Nat) (he : everyYear m d)
     (hy1 : 2 ≤ R.date.y) (hy2 : R.date.y ≤ 9998) (hs : R.secs = 0) :
     (⟨R.date.y, m, d⟩ : Date).valid = true ∧ (⟨R.date.y + 1, m, d⟩ : Date).valid = true ∧
     (⟨R.date.y - 1, m, d⟩ : Date).valid = true ∧
     (⟨R.date.y - 1, m, d⟩ : Date).ord < R.date.ord ∧ R.date.ord ≤ (⟨R.date.y + 1, m, d⟩ : Date).ord ∧
     ((⟨R.date.y, m, d⟩ : Date).ord < R.date.ord →
-      numberWithMonth R m d = some (luisDateNoYear m d, ⟨⟨R.date.y + 1, m, d⟩, 0⟩, ⟨⟨R.date.y, m, d⟩, 0⟩) ∧
-      numberWithMonthFixed R m d = some (luisDateNoYear m d, ⟨⟨R.date.y + 1, m, d⟩, 0⟩, ⟨⟨R.date.y, m, d⟩, 0⟩)) ∧
+      numberWithMonthPreFix R m d = some (luisDateNoYear m d, ⟨⟨R.date.y + 1, m, d⟩, 0⟩, ⟨⟨R.date.y, m, d⟩, 0⟩) ∧
+      numberWithMonth R m d = some (luisDateNoYear m d, ⟨⟨R.date.y + 1, m, d⟩, 0⟩, ⟨⟨R.date.y, m, d⟩, 0⟩)) ∧
     (R.date.ord ≤ (⟨R.date.y, m, d⟩ : Date).ord →
-      numberWithMonth R m d = some (luisDateNoYear m d, ⟨⟨R.date.y, m, d⟩, 0⟩, ⟨⟨R.date.y + 1, m, d⟩, 0⟩) ∧
-      numberWithMonthFixed R m d = some (luisDateNoYear m d, ⟨⟨R.date.y, m, d⟩, 0⟩, ⟨⟨R.date.y - 1, m, d⟩, 0⟩)) := by
+      numberWithMonthPreFix R m d = some (luisDateNoYear m d, ⟨⟨R.date.y, m, d⟩, 0⟩, ⟨⟨R.date.y + 1, m, d⟩, 0⟩) ∧
+      numberWithMonth R m d = some (luisDateNoYear m d, ⟨⟨R.date.y, m, d⟩, 0⟩, ⟨⟨R.date.y - 1, m, d⟩, 0⟩)) := by
   have v0 := valid_everyYear R.date.y m d he (by omega) (by omega)
   have vp := valid_everyYear (R.date.y - 1) m d he (by omega) (by omega)
   have vn := valid_everyYear (R.date.y + 1) m d he (by omega) (by omega)
@@ -1213,13 +1223,13 @@ theorem numberWithMonth_both (fixed : Bool) (R : DateTime) (hv : R.date.valid = 
   · intro c
     have l : (DateTime.lt ⟨⟨R.date.y, m, d⟩, 0⟩ R) = true := by rw [lt_iff]; left; exact c
     have g : ¬ (DateTime.le R ⟨⟨R.date.y, m, d⟩, 0⟩ = true) := by rw [le_iff]; simp only; omega
-    unfold numberWithMonth numberWithMonthFixed
+    unfold numberWithMonthPreFix numberWithMonth
     simp only [safeCreate_ymd _ m d v0, if_pos l, if_neg g, int_succ, replaceYear_ymd _ m d 0 _ vn, Option.bind_some]
     exact ⟨trivial, trivial⟩
   · intro c
     have l : ¬ (DateTime.lt ⟨⟨R.date.y, m, d⟩, 0⟩ R) = true := by rw [lt_iff]; simp only; omega
     have g : (DateTime.le R ⟨⟨R.date.y, m, d⟩, 0⟩ = true) := by rw [le_iff]; simp only; omega
-    unfold numberWithMonth numberWithMonthFixed
+    unfold numberWithMonthPreFix numberWithMonth
     simp only [safeCreate_ymd _ m d v0, if_neg l, if_pos g, int_succ, int_pred _ (show 1 ≤ R.date.y by omega),
       replaceYear_ymd _ m d 0 _ vn, replaceYear_ymd _ m d 0 _ vp, Option.bind_some]
     exact ⟨trivial, trivial⟩
